@@ -1,12 +1,30 @@
 """Per-property verification plans: which models TLC explores, which traces are recorded from the
 real code and validated, which TLC-generated vectors are replayed. See DESIGN.md section 6."""
-from vlib import model_check, record_and_validate, gen_and_replay
+from vlib import model_check, record_and_validate, gen_and_replay, mkcfg
 
 
 def bdd_jobs(ctx, mode, n, segments, length, nmax):
     return [("%s_%d" % (mode, i),
              ["record", "bdd", "--mode", mode, "--seed", ctx.seed * 1000 + i, "--segments", segments,
               "--len", length, "--nmax", nmax]) for i in range(n)]
+
+
+def genbdd_cfg(ctx, name, nv, mode, sample):
+    return mkcfg(ctx, name + ".cfg", "SPECIFICATION Spec\nCONSTANTS\n  NV = %d\n  Mode = \"%s\"\n  Sample = %d\n  Seed = %d\nCHECK_DEADLOCK FALSE\n"
+                 % (nv, mode, sample, ctx.seed % max(sample, 1)))
+
+
+def function_level_vectors(ctx, family):
+    """spec -> impl: every transition of the function-level model (GenBdd.tla) replayed into real builders"""
+    plan = [("u3", 3, "unary", 1), ("t2", 2, "ternary", 1)]
+    if ctx.quick:
+        plan += [("b3", 3, "binary", 4), ("u4", 4, "unary", 16)]
+    else:
+        plan += [("b3", 3, "binary", 1), ("u4", 4, "unary", 1), ("t3", 3, "ternary", 64)]
+    for name, nv, mode, sample in plan:
+        gen_and_replay(ctx, "GenBdd", genbdd_cfg(ctx, "GenBdd_" + name, nv, mode, sample), family,
+                       "%s operations on %s functions of %d variables" % (mode, "all" if sample == 1 else "1/%d of the" % sample, nv),
+                       extra_replay=["--nv", nv, "--seed", ctx.seed], timeout=1500)
 
 
 def C01(ctx):
@@ -16,6 +34,7 @@ def C01(ctx):
         "universe bounded: at most NV<=6 variables per builder; pool of 12 live diagrams",
     ]
     model_check(ctx, "MC_BoolFn", "MC_BoolFn.cfg", "vocabulary laws (oracle self-check)", workers=1, timeout=300)
+    function_level_vectors(ctx, "bddvec")
     if ctx.quick:
         jobs = bdd_jobs(ctx, "c01", 8, 4, 200, 5)
     else:
@@ -98,6 +117,7 @@ def C03(ctx):
     ctx.assumptions += ["SDD denotations are recomputed by TLC from raw element lists (prime/sub pointers, complement bits)",
                         "vtrees: right-linear, left-linear, even-split, dtree-derived and random shapes with random leaf labellings, <= 5 variables",
                         "uncompressed segments are kept short (<= 30 operations): uncompressed random programs blow up in the library itself"]
+    function_level_vectors(ctx, "sddvec")
     _sdd_family(ctx, "c03", "TraceSdd_C03.cfg", nq=8)
 
 
